@@ -215,8 +215,9 @@ def playback(ctx: Ctx, h: dict, logdir: str, prop: str) -> dict:
     with Lane(ctx) as lane:
         cmd = kani_cmd(lane, h, "-Z concrete-playback --concrete-playback=print")
         # trace generation for every failed check and every cover costs several times the plain run
-        # (and the JSON trace needs far more address space than the plain run: 10 GB was not enough)
-        rc, out, wall = run_cmd(cmd, ctx.harness_dir, 4 * h["timeout"] + 900, 32)
+        # (and the JSON trace needs far more address space than the plain run: 10 GB and 32 GB caps both killed it
+        # -> no address-space cap at all for this one run; the time limit still applies)
+        rc, out, wall = run_cmd(cmd, ctx.harness_dir, 4 * h["timeout"] + 900, None)
     with open(os.path.join(logdir, h["name"] + ".playback-gen.log"), "w") as f:
         f.write(out)
     test = extract_playback_test(out)
@@ -347,7 +348,7 @@ def check_property(prop: str, tier: str, only: str | None, jobs: int, ctx: Ctx |
     rnd = random.Random(seed)
     rnd.shuffle(hs)
     hs.sort(key=lambda h: -h["timeout"])
-    logdir = os.path.join(ctx.target_root, "logs", prop)
+    logdir = os.path.join(ctx.target_root, "logs", f"{prop}-{tier}" + (f"-{only}" if only else ""))
     shutil.rmtree(logdir, ignore_errors=True)
     os.makedirs(logdir, exist_ok=True)
     known = load_known()
